@@ -34,7 +34,9 @@ META = {
              "(GetManyFromOrderPosition's result size; generated); window bounds are arbitrary instants (int64 wrap modelled, far-past / far-future generated), stored "
              "timestamps are what UnixNano makes of the request's (wrap64 in the model; the generator stays inside 1970..1970+9s). Forced "
              "schedules: two first readers (hook beacon.build), a shift that loses a claim between selection and delete (hook "
-             "shift.selected; the general claim race is covered by one closed witness, not by a theorem over all schedules). Not "
+             "shift.selected; the general claim race is covered by one closed witness, not by a theorem over all schedules — that needs the "
+             "`ListSub` invariant of the PatchExpired proof generalised to every index type and every op between select and release, "
+             "more than the time that was left). Not "
              "driven: the other Increment variants and Uint32SlicePush (same SaveFunction path, content types without a value index "
              "of their own), PatchMeta.SetUpdatedAt / SetCreatedAt (server clock)."),
     "design_ref": "§8 C07",
